@@ -47,15 +47,20 @@ def run(tier: str, seed: int, replay=None) -> int:
     plan = {
         "rule": RULE, "assumptions": ASSUMPTIONS,
         # (config, max replayed states (0 = all), states per model build (0 = all), label)
-        "design": ([("MPSLifeMC_arch_quick", 390, 3, "arch"), ("MPSLifeMC_tuples_quick", 300, 1, "tuples"),
-                    ("MPSLifeMC_all_quick", 330, 30, "allwinners"), ("MPSLifeMC_d1_quick", 180, 3, "arch1d"),
-                    ("MPSLifeMC_reuse_quick", 120, 3, "reuse", "F66")] if q else
+        "design": ([("MPSLifeMC_arch_quick", 300, 3, "arch"), ("MPSLifeMC_tuples_quick", 200, 1, "tuples"),
+                    ("MPSLifeMC_all_quick", 240, 30, "allwinners"), ("MPSLifeMC_d1_quick", 150, 3, "arch1d"),
+                    ("MPSLifeMC_reuse_quick", 90, 3, "reuse", "F66"), ("MPSLifeMC_opts_quick", 180, 3, "convopts"),
+                    ("MPSLifeMC_opts1d_quick", 60, 3, "convopts1d"), ("MPSLifeMC_modes_quick", 150, 50, "modes"),
+                    ("MPSLifeMC_export_quick", 200, 50, "exports")] if q else
                    [("MPSLifeMC_arch_quick", 0, 0, "arch"), ("MPSLifeMC_arch_thorough", 2400, 3, "arch4"),
                     ("MPSLifeMC_arch5_thorough", 1200, 3, "arch5"), ("MPSLifeMC_tuples_thorough", 2000, 2, "tuples"),
                     ("MPSLifeMC_all_thorough", 2500, 40, "allwinners"), ("MPSLifeMC_few_thorough", 1200, 3, "few"),
                     ("MPSLifeMC_d1_quick", 0, 0, "arch1d"), ("MPSLifeMC_d1_thorough", 1500, 3, "arch1d4"),
-                    ("MPSLifeMC_reuse_thorough", 1500, 3, "reuse", "F66"), ("MPSLifeMC_reuse1d_thorough", 600, 3, "reuse1d", "F66")]),
-        "sanity": ["MPSLifeMC_nokf40", "MPSLifeMC_noreuse"],
+                    ("MPSLifeMC_reuse_thorough", 1500, 3, "reuse", "F66"), ("MPSLifeMC_reuse1d_thorough", 600, 3, "reuse1d", "F66"),
+                    ("MPSLifeMC_opts_quick", 0, 0, "convopts"), ("MPSLifeMC_opts_thorough", 1500, 3, "convopts3"),
+                    ("MPSLifeMC_opts1d_quick", 0, 0, "convopts1d"), ("MPSLifeMC_modes_thorough", 1500, 100, "modes"),
+                    ("MPSLifeMC_export_thorough", 2500, 150, "exports")]),
+        "sanity": ["MPSLifeMC_nokf40", "MPSLifeMC_noreuse", "MPSLifeMC_cachefwd", "MPSLifeMC_memoexport"],
         "n_random": 60 if q else 600, "random_sels": 2 if q else 3, "max_nodes": 9 if q else 12,
         "procs": 8, "tlc_workers": 8,
     }
